@@ -285,3 +285,29 @@ TEXT['C16']['text'] += (' Search support on every run: S det replays every trace
                         'runs one subject execution between every sequence of one or two unrelated executions that share its chain configuration value, '
                         'height and time; the global-write table (regenerated, decide +kernel) lists every write to a package-level variable, including '
                         'state-changing methods of sync/atomic types.')
+
+# additions for the interpreter-loop layer M9 (Model/Interp.lean) and the interp correspondence layer
+TEXT['C03']['text'] += (' Interpreter loop: EVMInterpreter.Run and the frame-local instructions (arithmetic, comparison, bitwise, stack, memory, copy, '
+                        'jump, push/dup/swap, environment pushes, RETURN/REVERT/STOP, MCOPY) are modelled with Go\'s partial operations partial '
+                        '(Stack.pop/Back/dup/swap on a short stack, Memory.Set/Set32/GetPtr beyond the store, slice expressions, getData); theorem '
+                        'interp_never_panics: on every one of the 22 instruction tables extracted from the running code, for every program, calldata, '
+                        'stack, gas, memory content and run length, no iteration panics (the stack floors of the table cover every operand the execute, '
+                        'dynamic-gas and memory-size functions touch; a memory instruction runs only after Resize has covered its range; memory stays '
+                        'below the 0x1FFFFFFFE0 ceiling). Tied by the interp layer: generated programs on the real loop on every fork, compared step by '
+                        'step (pc, opcode, gas, stack height and top two words, memory size) and by result. Tracers: S tracer-no-panic runs the native '
+                        'tracers on generated executions under recover().')
+TEXT['C12']['text'] += (' Theorem over whole runs (run_pops_same): for every program, table, input, world and number of iterations, the run with journal '
+                        'instructions and the run in which each journal instruction only pops its operands (and pays the fee) go through states that '
+                        'agree in stack, memory, pc, gas, return data and world, and reach the same stop/return/revert with the same gas and data; the '
+                        'pops run never touches the tracer (runPops_tr). The interp layer runs journal programs (registrations and change journals over '
+                        'prepared storage and memory, followed by ordinary code) on the real loop against this model.')
+TEXT['C20']['text'] += (' Interpreter loop (interp_work_bounded_by_gas): on every extracted table every continuing iteration costs at least one unit of gas '
+                        '(constant fee >= 1, or EXP\'s floor of 10, or the journal fee), hence a frame given g gas executes at most g+1 instructions.')
+TEXT['C17']['text'] += (' Interpreter loop (interp_cancel_stops): on every extracted table, with the abort flag set the program counter strictly increases '
+                        'at every continuing iteration (JUMP/JUMPI test the flag first), so the frame stops within |code| - pc + 1 instructions whatever '
+                        'the program, stack, memory and gas.')
+TEXT['C02']['text'] += (' The loop model (Model/Interp.lean) reproduces gas before every instruction and the leftover gas of the frame for the frame-local '
+                        'instruction set on every fork (interp layer, compared step by step); theorem run_gas: no iteration and no run leaves more gas than '
+                        'it found.')
+TEXT['C06']['text'] += (' Inside a frame (run_gas): the interpreter loop over the frame-local instruction set never ends or continues with more gas than it '
+                        'started with, for every program and table.')
